@@ -31,7 +31,7 @@ const (
 
 // atoi is similar to the function in strconv, but is tuned for ints appearing in FIX field types.
 func atoi(d []byte) (int, error) {
-	if d[0] == asciiMinus {
+	if len(d) > 0 && d[0] == asciiMinus {
 		n, err := parseUInt(d[1:])
 		return (-1) * n, err
 	}
